@@ -279,7 +279,9 @@ class C20(core.Check):
     def op_loaders(self, op, d, viol, bump):
         mf = self.mf
         data = op["text"].encode("utf-8")
-        p = os.path.join(d, "in.map")
+        # the file name is just a name: nothing in it is special (no environment variables, no templates, no globbing)
+        names = ["in.map", "in.map", "cost_$HOME.map", "stage_${PATH}.map", "tiles_{z}.map", "ünï 中.map", "with space.map", "~tilde.map"]
+        p = os.path.join(d, names[len(data) % len(names)])
         with open(p, "wb") as f:
             f.write(data)
         kw = op["kw"]
@@ -326,7 +328,10 @@ class C20(core.Check):
             bump("skipped.dumps_refuses")
             return None
         text = s[2]
-        p = os.path.join(d, "out.map")
+        p = os.path.join(d, ["out.map", "out_$HOME.map", "out {x}.map"][len(text) % 3])
+        if len(text) % 2:
+            with open(p, "wb") as f:  # the target already exists and is LONGER than what will be written
+                f.write(b"# older, longer content\n" * 4000)
         sv = core.call(lambda: mf.save(dct, p, **kw))
         if sv[0] != "ok":
             return viol("save_raised_but_dumps_did_not", op, sv[1])
@@ -443,7 +448,7 @@ class C20(core.Check):
             with open(pref, "rb") as f:
                 want0 = f.read()
             nlc = skw.get("newlinechar", "\n").encode()
-            pre = {"same": want0, "garbage": b"OLD CONTENT\n",
+            pre = {"same": want0, "garbage": b"OLD CONTENT, LONGER THAN THE NEW ONE\n" * 2000,
                    "other_newlines": want0.replace(nlc, b"\r\n" if nlc == b"\n" else b"\n"),
                    "cr_variant": want0.replace(nlc, b"\r")}[op["existing_out"]]
             with open(pout, "wb") as f:
@@ -473,7 +478,7 @@ class C20(core.Check):
         unparsed = 0
         matched = 0
         kinds = []
-        odd = ["tiles_{z}", "x_{line}", "odd{", "set{}", "mapa ñ", "o'brien", "a&b", "percent%s"]
+        odd = ["tiles_{z}", "x_{line}", "odd{", "set{}", "mapa ñ", "o'brien", "a&b", "percent%s", "cost_$HOME", "in_${PATH}"]
         for i, f in enumerate(op["files"]):
             stem = f"f{i}" if not op.get("odd_names") else f"{odd[(i + len(op['files'])) % len(odd)]}_{i}"
             p = os.path.join(d, f"{stem}.map")
